@@ -47,7 +47,11 @@ V_NONDET_FN(uint32_t); V_NONDET_FN(int32_t); V_NONDET_FN(ptrdiff_t);
 #define V_POST(c, msg) /* native only: the contract's ensures clause is the obligation */
 /* reachability witness: an assertion that is expected to FAIL (checked by the driver as a vacuity guard) */
 #define V_COVER(c) __CPROVER_assert(!(c), "V_COVER reachable: " #c)
+#ifdef V_INCLUDE_TU
+#define V_STATIC(file_c, fn) fn
+#else
 #define V_STATIC(file_c, fn) __CPROVER_file_local_##file_c##_##fn
+#endif
 #define V_UNREACHABLE_STUB(msg) __CPROVER_assert(0, "harness-sanity: unexpected call: " msg)
 /* path ends here (error()/fatal()/longjmp): nothing after it is explored */
 #define V_STOP() __CPROVER_assume(0)
